@@ -591,6 +591,12 @@ func main() {
 			}
 		},
 		"stdio-free": func(r *vh.Run) { stdioServer(r, r.Pick(10, 400), 16, false) },
+		"stdio-osfile-held": func(r *vh.Run) { stdioOSFile(r, "ospipe-held") },
+		"stdio-osfile-free": func(r *vh.Run) { stdioOSFile(r, "ospipe-free") },
+		"stdio-osfile-child": func(r *vh.Run) {
+			stdioOSFile(r, "child")
+			stdioOSFile(r, "child-free")
+		},
 		"get": func(r *vh.Run) {
 			for _, pt := range []string{"sse.write.afterid", "sse.write.beforeterm", ""} {
 				for _, w := range []int{2, 4, 8} {
@@ -664,7 +670,7 @@ func main() {
 		cr.ExportAndExit()
 	}
 	r := vh.NewRun("C09", "exploration")
-	names := []string{"client-stdin", "client-http", "payload-streamable", "payload-legacy", "payload-stdio", "stdio-held", "stdio-free", "get", "post", "legacy", "get-lifecycle-held", "get-lifecycle-free", "get-broadcast", "post-unjoined", "errpath-streamable", "errpath-legacy", "errpath-stdio"}
+	names := []string{"client-stdin", "client-http", "payload-streamable", "payload-legacy", "payload-stdio", "stdio-held", "stdio-free", "stdio-osfile-held", "stdio-osfile-free", "stdio-osfile-child", "get", "post", "legacy", "get-lifecycle-held", "get-lifecycle-free", "get-broadcast", "post-unjoined", "errpath-streamable", "errpath-legacy", "errpath-stdio"}
 	var wg sync.WaitGroup
 	results := make([]*vh.ChildResult, len(names))
 	for i, name := range names {
@@ -696,8 +702,8 @@ func main() {
 	}
 	var keys []string
 	sort.Strings(keys)
-	r.Finish("streams: stdio server stdout (responses from per-request goroutines + server-issued roots/list requests), Streamable GET stream (notifications + server requests from 2-8 goroutines), POST SSE stream (notifications from 2-4 goroutines inside one handler, then the result), legacy SSE stream (responses, notifications, 2 ms keep-alive comments), and the CLIENT-to-server direction against scripted servers written without the library: stdio client stdin (4 and 8 application goroutines sending tools/call, list/get/read requests and bursts of roots/list_changed notifications while the scripted server floods the client with tens of thousands of server-issued requests of 9 kinds - roots/list with and without params, sampling/createMessage small and 8 KiB, elicitation/create, ping, unknown method, a client-to-server method in the wrong direction, a method name with line breaks; numeric and string ids - so that the read loop writes result and method-not-found answers concurrently with the application goroutines; the child records its stdin split at LF only), Streamable and legacy SSE clients (same workload; frame = POST body; server-issued requests arrive on the GET / event stream). For the client direction the multiset is: initialize and initialized once, every application request once (by nonce), as many roots/list_changed as sends that returned nil, exactly one answer per server-issued id and no answer with another id. Writers are parked by the yield controller between payload and newline (stdio.write.mid) and between the lines of one event (sse.write.afterid / sse.write.beforeterm) and released in seeded permutations, plus free-running stress. Payloads contain CR, LF, CRLF, U+2028/2029, SSE field names, and sizes around 4096 and 65536. A strict LF splitter / WHATWG SSE reader must recover exactly the multiset of nonce-carrying messages written, each frame one JSON value. Life cycle of a Streamable stream (writers.go): per session the listening stream is opened, reopened with Last-Event-ID (superseding the old stream or after the client dropped it; the server writes its stream/resumed notice) and ended by DELETE while 2-8 senders send notifications and server requests to the session - held variant: the life-cycle action and the senders in three seeded orders with the writers parked between the lines of their event and released one at a time once the number parked is stable; free variant: a reconnect loop (open, receive 1-30 events, reopen with the last id) under constant sending with random delays at the yield points and registrations running on the server. Broadcasts: 2-4 goroutines broadcasting to 4-8 sessions next to per-session senders, half of the sessions DELETEd meanwhile; a broadcast's copies over all sessions must equal the count the API returned. POST-SSE unjoined: the handler starts 2-8 goroutines that send in-call notifications and returns while some of them are still sending; the stream must hold the final answer once and every notification whose send returned nil, each in an event of its own. For these scenarios the multiset is taken over all streams of a session: a send that reported success must be recovered exactly once, a refused send never, a send that failed inside the write 0 or 1 times; a message may be missing only if it can have been written to a stream the client cut, after everything that arrived on that stream. Distinct = (stream scenario, writer count) and, for the held life cycle, (action, order, writer count). Payload dimension (payloadspace.go): 147 payload classes that are special to a layer a frame passes on its way out - formatting (percent signs in every position: bare, verbs, %%, %20, trailing, before a JSON quote / escape / line break, hundreds in a row), template syntax ($1, ${x}, {{.}}), string escaping (backslashes, quotes, literal \\u-escapes, JSON text inside a string), NUL / C0 / C1 / DEL / ESC, invalid UTF-8 incl. encoded lone surrogates, noncharacters, astral and bidi characters, SSE field syntax inside data (data:, id:, event:, retry:, leading colon, leading / trailing blanks and tabs, BOM), stdio line syntax (tab, FF, VT, NEL, LS/PS, CR / LF / CRLF runs), single lines of 70-150 KB and thousands of short lines - each sent in every message kind with free text (tool results: text, isError text, two texts, structured content keys and values; prompt and resource results incl. the URI; JSON-RPC errors carrying a tool / prompt / resource handler's message or echoing an unknown tool / prompt / URI; string ids of results and of errors; in-call notifications: custom param, method name, object key, progress message, log message; in-call server-issued requests on stdio: param, method, key; out-of-band notifications and server-issued requests: param, method, key, string id; broadcast) on the POST SSE stream, the GET listening stream, the legacy SSE stream (2 ms keep-alive comments) and stdio stdout, 6 writers at a time (thorough: the whole matrix with 2, 8 and 16 writers). Oracle there: every frame is one JSON value and the multiset of recovered messages equals the multiset written BY CONTENT (canonical JSON after decoding); the message written for a payload is the decoded frame of a probe with a harmless token on the quiet stream with the token replaced by the payload as encoding/json delivers it. Distinct = (stream, message kind) with at least one message recovered with equal content; monitors payload_msgs_recovered_equal|stream|kind count them. Client direction: the application's requests carry the same classes in tool / prompt name, arguments, resource URI and cursor, the roots provider returns roots named after them, the scripted server uses them in string ids and method names; recovered free text, roots and the method named in a method-not-found answer are compared with what was passed. Error paths of the writers (errpaths.go): 37 value classes the application can hand to the library - values encoding/json refuses (NaN / +Inf / -Inf as float64, float32, in a slice, deep in a struct, behind 70 KB of text, behind a pointer; chan, func, complex, chan in a struct, bool map keys, a func after multi-line text; MarshalJSON returning an error, truncated JSON, two values, nothing, a string with raw LF / CR-LF, SSE syntax, failing on odd / even calls only; a MarshalText key that fails; RawMessage truncated, empty, LF only, garbage lines, behind a pointer; pointer, map and slice cycles) and values that encode but whose MarshalJSON / RawMessage text is spread over lines with LF, CR-LF and blank lines - each in every message kind that carries application values (tool result structuredContent nested and top level, _meta, a Content of the application's own type; prompt result _meta; in-call notification param, _meta, progress value; server-issued request params from inside a call and out of band; out-of-band notification param, _meta; broadcast) on the POST SSE stream, the GET listening stream, the legacy SSE stream (2 ms keep-alive comments) and stdio stdout, 4 cases at a time, while 2 goroutines of the same handler send ordinary notifications on the same stream and 3 background writers send ordinary notifications, server requests and calls before, during and after. Oracle there: whatever the server writes for such a value (an error answer, nothing, a message) every frame is one JSON object, no event has two id: lines or a line that is no field, no POST stream / stdout ends inside a frame, every ordinary message whose send reported success is recovered exactly once (missing only judged after a fence through every pump arrived), a message reported as sent with a value that encodes is recovered once and carries the same JSON value, no request with an encodable result gets two answers. Distinct = (stream, message kind) with at least one case judged on a stream shown complete next to recovered ordinary messages; monitors errpath_outcome|stream|value family|what the server did.",
-		[]string{"life-cycle scenarios: this library version writes no keep-alive comments on Streamable streams and announces no list_changed on registration (the counters get_stream_comments and server_own_messages|*list_changed show what was seen; such lines would be judged for framing only); the stream/resumed notice is not promised by the statement, so its count is reported and not judged; a server request sent with an already cancelled context counts as written only because a probe at start saw such a request arrive", "with the write locks in place only one writer can be parked inside a frame; the evidence gauges writers_parked_* report how many were simultaneously inside", "stdout is an in-memory writer whose Write calls are atomic (like write(2) below PIPE_BUF); the client-stdin scenario uses a real pipe",
+	r.Finish("streams: stdio server stdout (responses from per-request goroutines + server-issued roots/list requests), Streamable GET stream (notifications + server requests from 2-8 goroutines), POST SSE stream (notifications from 2-4 goroutines inside one handler, then the result), legacy SSE stream (responses, notifications, 2 ms keep-alive comments), and the CLIENT-to-server direction against scripted servers written without the library: stdio client stdin (4 and 8 application goroutines sending tools/call, list/get/read requests and bursts of roots/list_changed notifications while the scripted server floods the client with tens of thousands of server-issued requests of 9 kinds - roots/list with and without params, sampling/createMessage small and 8 KiB, elicitation/create, ping, unknown method, a client-to-server method in the wrong direction, a method name with line breaks; numeric and string ids - so that the read loop writes result and method-not-found answers concurrently with the application goroutines; the child records its stdin split at LF only), Streamable and legacy SSE clients (same workload; frame = POST body; server-issued requests arrive on the GET / event stream). For the client direction the multiset is: initialize and initialized once, every application request once (by nonce), as many roots/list_changed as sends that returned nil, exactly one answer per server-issued id and no answer with another id. Writers are parked by the yield controller between payload and newline (stdio.write.mid) and between the lines of one event (sse.write.afterid / sse.write.beforeterm) and released in seeded permutations, plus free-running stress. Payloads contain CR, LF, CRLF, U+2028/2029, SSE field names, and sizes around 4096 and 65536. A strict LF splitter / WHATWG SSE reader must recover exactly the multiset of nonce-carrying messages written, each frame one JSON value. Life cycle of a Streamable stream (writers.go): per session the listening stream is opened, reopened with Last-Event-ID (superseding the old stream or after the client dropped it; the server writes its stream/resumed notice) and ended by DELETE while 2-8 senders send notifications and server requests to the session - held variant: the life-cycle action and the senders in three seeded orders with the writers parked between the lines of their event and released one at a time once the number parked is stable; free variant: a reconnect loop (open, receive 1-30 events, reopen with the last id) under constant sending with random delays at the yield points and registrations running on the server. Broadcasts: 2-4 goroutines broadcasting to 4-8 sessions next to per-session senders, half of the sessions DELETEd meanwhile; a broadcast's copies over all sessions must equal the count the API returned. POST-SSE unjoined: the handler starts 2-8 goroutines that send in-call notifications and returns while some of them are still sending; the stream must hold the final answer once and every notification whose send returned nil, each in an event of its own. For these scenarios the multiset is taken over all streams of a session: a send that reported success must be recovered exactly once, a refused send never, a send that failed inside the write 0 or 1 times; a message may be missing only if it can have been written to a stream the client cut, after everything that arrived on that stream. Distinct = (stream scenario, writer count) and, for the held life cycle, (action, order, writer count). Payload dimension (payloadspace.go): 147 payload classes that are special to a layer a frame passes on its way out - formatting (percent signs in every position: bare, verbs, %%, %20, trailing, before a JSON quote / escape / line break, hundreds in a row), template syntax ($1, ${x}, {{.}}), string escaping (backslashes, quotes, literal \\u-escapes, JSON text inside a string), NUL / C0 / C1 / DEL / ESC, invalid UTF-8 incl. encoded lone surrogates, noncharacters, astral and bidi characters, SSE field syntax inside data (data:, id:, event:, retry:, leading colon, leading / trailing blanks and tabs, BOM), stdio line syntax (tab, FF, VT, NEL, LS/PS, CR / LF / CRLF runs), single lines of 70-150 KB and thousands of short lines - each sent in every message kind with free text (tool results: text, isError text, two texts, structured content keys and values; prompt and resource results incl. the URI; JSON-RPC errors carrying a tool / prompt / resource handler's message or echoing an unknown tool / prompt / URI; string ids of results and of errors; in-call notifications: custom param, method name, object key, progress message, log message; in-call server-issued requests on stdio: param, method, key; out-of-band notifications and server-issued requests: param, method, key, string id; broadcast) on the POST SSE stream, the GET listening stream, the legacy SSE stream (2 ms keep-alive comments) and stdio stdout, 6 writers at a time (thorough: the whole matrix with 2, 8 and 16 writers). Oracle there: every frame is one JSON value and the multiset of recovered messages equals the multiset written BY CONTENT (canonical JSON after decoding); the message written for a payload is the decoded frame of a probe with a harmless token on the quiet stream with the token replaced by the payload as encoding/json delivers it. Distinct = (stream, message kind) with at least one message recovered with equal content; monitors payload_msgs_recovered_equal|stream|kind count them. Client direction: the application's requests carry the same classes in tool / prompt name, arguments, resource URI and cursor, the roots provider returns roots named after them, the scripted server uses them in string ids and method names; recovered free text, roots and the method named in a method-not-found answer are compared with what was passed. Error paths of the writers (errpaths.go): 37 value classes the application can hand to the library - values encoding/json refuses (NaN / +Inf / -Inf as float64, float32, in a slice, deep in a struct, behind 70 KB of text, behind a pointer; chan, func, complex, chan in a struct, bool map keys, a func after multi-line text; MarshalJSON returning an error, truncated JSON, two values, nothing, a string with raw LF / CR-LF, SSE syntax, failing on odd / even calls only; a MarshalText key that fails; RawMessage truncated, empty, LF only, garbage lines, behind a pointer; pointer, map and slice cycles) and values that encode but whose MarshalJSON / RawMessage text is spread over lines with LF, CR-LF and blank lines - each in every message kind that carries application values (tool result structuredContent nested and top level, _meta, a Content of the application's own type; prompt result _meta; in-call notification param, _meta, progress value; server-issued request params from inside a call and out of band; out-of-band notification param, _meta; broadcast) on the POST SSE stream, the GET listening stream, the legacy SSE stream (2 ms keep-alive comments) and stdio stdout, 4 cases at a time, while 2 goroutines of the same handler send ordinary notifications on the same stream and 3 background writers send ordinary notifications, server requests and calls before, during and after. Oracle there: whatever the server writes for such a value (an error answer, nothing, a message) every frame is one JSON object, no event has two id: lines or a line that is no field, no POST stream / stdout ends inside a frame, every ordinary message whose send reported success is recovered exactly once (missing only judged after a fence through every pump arrived), a message reported as sent with a value that encodes is recovered once and carries the same JSON value, no request with an encodable result gets two answers. Distinct = (stream, message kind) with at least one case judged on a stream shown complete next to recovered ordinary messages; monitors errpath_outcome|stream|value family|what the server did. Writer type x frame size (osfile.go): the stdio server writes to a real OS pipe - (ospipe-held, ospipe-free) the real transport loop in-process over os.Pipe, the server being handed the *os.File itself, and (child, child-free) the library's StdioServer.Start on os.Stdin/os.Stdout in a child process - and every writer kind (result answer, isError answer, JSON-RPC error answer of a failing handler, notification sent by a handler, server-issued request; plus the fixed small answers ping, method-not-found, parse error) writes frames of EXACT encoded sizes min, 100, 511/512/513, 4095/4096/4097, 8191/8192/8193, 65535/65536/65537 and 1 MiB (each kind calibrated on the quiet stream: frame length at pad 0 and pad 7), 12 (held, child) or 32 (free) writers per round in seeded order over the whole kind x size matrix, plus boundary rounds (a kind at the larger of two adjacent sizes, a seeded kind at the smaller, a ping). held: every writer reaching stdio.write.mid is parked there while all other writers of the round try to write (dwell until the byte count of the pipe is stable), then released, one at a time; child: the child's yield function dwells there by itself (seeded); free: seeded random delays / none. Oracle: stdout split at LF only - every line exactly one JSON-RPC object, no empty line, no CR, no unterminated tail, multiset of message keys (answer id / notification nonce / request nonce) equals what was written, every sized frame has exactly the length it was written with. Distinct there = (variant, writer kind, size class) with a frame of that kind and size recovered intact; monitors osfile_frames|kind|size class, osfile_held_writer|kind|size class (who was inside its frame), osfile_held_writer_rounds|variant, osfile_bytes|variant. The client senders also use payloads that put the request frame within 0-400 bytes below 512, 4096, 8192, 65536 and 1 MiB (cli_frame_size|scenario|class counts the client frames per size class as observed).",
+		[]string{"life-cycle scenarios: this library version writes no keep-alive comments on Streamable streams and announces no list_changed on registration (the counters get_stream_comments and server_own_messages|*list_changed show what was seen; such lines would be judged for framing only); the stream/resumed notice is not promised by the statement, so its count is reported and not judged; a server request sent with an already cancelled context counts as written only because a probe at start saw such a request arrive", "with the write locks in place only one writer can be parked inside a frame; the evidence gauges writers_parked_* report how many were simultaneously inside", "stdout is an in-memory writer whose Write calls are atomic (like write(2) below PIPE_BUF) except in the stdio-osfile scenarios, where it is an OS pipe (*os.File); the client-stdin scenario uses a real pipe", "stdio-osfile: the stdio server has no log-message / progress sender (GetNotificationSender is not available on stdio), so the writer kinds are answers, error answers, handler notifications and server-issued requests; notifications and server requests are all written by the one outgoing pump; the dwell of a parked writer is a pause for exploration only, the verdict is taken from the byte stream; a parse-error answer carries no id member and is counted as id null",
 			"payload dimension: a message kind carries its payload opaquely, i.e. the message for payload P is the message the same handler / API call produces for a harmless token with the token replaced by P after one trip through encoding/json (invalid UTF-8 -> U+FFFD); a kind whose probe does not carry the token is judged for framing only (noted); a send the API reported as failed (or a server-issued request that was not answered within 4 s) counts as 0 or 1 copies; a written message is reported missing only after the exchange has ended (POST) or a fence written afterwards through the same pump has arrived, otherwise inconclusive; the method named in a client's method-not-found answer is judged only if the client is seen to name a harmless method verbatim",
 			"error paths: what the server does with a value it cannot encode is left open by the statement (error answer, nothing, a message without the value: all accepted and counted); a server request whose API call ran into its deadline counts as 0 or 1 copies; blocks of field lines without a data line dispatch nothing in a conforming reader and are only counted (errpath_sse_blocks_without_data)",
 			"client direction: there is no yield point between the writes of one client frame, so interleavings inside a client frame are explored by volume only (free-running stress, window one syscall wide); an API call that reports a send failure leaves open whether its message was written (0 or 1 copies accepted); an empty stdin line carries no message and is skipped (counted in cli_empty_lines); when the scripted server's 20 s no-progress watchdog ends the wait for answers, missing answers are inconclusive"})
